@@ -7,7 +7,8 @@ import tprog, gen_dag, gen_ops
 PROP = 'C11'
 LEAN_TARGETS = ['Props.C11']
 REQUIRED_THEOREMS = ['Props.C11.apply_preserves', "Props.C11.apply_repeatable'", 'Props.C11.backward_preserves_data',
-                     'Props.C11.root_gradient_is_copied', 'Props.C11.zeroGrad_preserves_data']
+                     'Props.C11.root_gradient_is_copied', 'Props.C11.zeroGrad_preserves_data',
+                     'Props.C11.kernels_never_write_operands', 'Props.C11.kernel_operands_unchanged']
 RULE = ('(a) every op / nn op / loss once or more with operands that are NumPy views of one another (aliased leaves) and operands '
         'reused by several ops; (b) DAG programs with two backward calls through the same root and a later graph re-using it; '
         'after every forward and every backward the bytes (`tobytes()` of the arrays and of their bases) of every operand, target, '
@@ -16,7 +17,16 @@ RULE = ('(a) every op / nn op / loss once or more with operands that are NumPy v
         'are immutable). Non-trivial: a program with an aliased operand or two backward calls.')
 EXHAUSTIVE = {'quick': False, 'thorough': False}
 ASSUMPTIONS = ['the documented in-place writers (optimizer step, initialisers, batch-norm running statistics, zeroing) are exercised by C08 / C15 / C13 / C04']
-TRUSTED_BASE = ['harness/tprog.py']
+TRUSTED_BASE = ['harness/tprog.py',
+                'harness/effects.py (effect extractor: the translation of cpu_ops.py / conv_tools.py into effect programs, its tables of '
+                'allocating / view-returning / writing NumPy functions (probed on the installed NumPy on every run), the assumption that '
+                'array parameters are plain ndarrays of non-object dtype)']
+
+
+def extract():
+    """regenerate lean/SynapModel/Generated/EffectTable.lean from /repo's current source (theorem kernels_never_write_operands)"""
+    import effects
+    return effects.write_effect_table()
 
 
 STATEFUL = ('batch_norm', 'dropout', 'cross_entropy', 'softmax', 'log_softmax', 'max_pool2d', 'max_pool1d')    # ops that save something for backward
